@@ -396,6 +396,11 @@ func cmdFingerprints(repo string) int {
 	for _, fnn := range cs.order {
 		if fn := e.findFunction(fnn); fn != nil && len(fn.Blocks) >= 1 {
 			out[fnn] = bodyFingerprint(fn)
+			var names []string
+			for i := 0; i < fn.Signature.Results().Len(); i++ {
+				names = append(names, fn.Signature.Results().At(i).Name())
+			}
+			out["results:"+fnn] = strings.Join(names, ",")
 		}
 	}
 	data, _ := json.MarshalIndent(out, "", " ")
@@ -414,6 +419,12 @@ func (e *Engine) resolveRenamed() {
 	known := map[string]string{}
 	if json.Unmarshal(data, &known) != nil {
 		return
+	}
+	e.resultNames = map[string][]string{}
+	for k, v := range known {
+		if strings.HasPrefix(k, "results:") {
+			e.resultNames[k[8:]] = strings.Split(v, ",")
+		}
 	}
 	var byFP map[string][]*ssa.Function
 	for _, fnn := range e.contracts.order {
